@@ -209,6 +209,17 @@ K("C03.K.dec.str_long", C03M, "verif_c03::dec_str_long", {"C03": "D"}, needs=(RE
   note="str contract for LONG strings: accept iff fits and valid, value in place, remainder, error kinds")
 K("C03.K.dec.char_accepts_valid", C03M, "verif_c03::dec_char_accepts_valid", {"C03": "D"}, needs=(REF, PROBES), fns=[DES + "deserialize_char"],
   note="every scalar's encoding (+ any tail byte) is accepted and returns that scalar")
+# ---------------------------------------------------------------- C03 per-kind decoding, Route V: the real Deserializer methods, generic over flavour and visitor, all streams
+_DKW = {"deserialize_bool": "C03.K.dec.bool_u8_i8", "deserialize_u8": "C03.K.dec.bool_u8_i8", "deserialize_i8": "C03.K.dec.bool_u8_i8",
+        "deserialize_bytes": "C03.K.dec.bytes", "deserialize_byte_buf": "C03.K.dec.bytes", "deserialize_str": "C03.K.dec.str*", "deserialize_string": "C03.K.dec.str*",
+        "deserialize_option": "C03.K.dec.option", "deserialize_unit": "C01.K.kind.unit", "deserialize_unit_struct": "C01.K.kind.unit_struct",
+        "deserialize_newtype_struct": "C01.K.kind.newtype_struct"}
+for _b in [16, 32, 64, 128]:
+    _DKW["deserialize_u%d" % _b] = "C03.K.de.take_u%d" % _b
+    _DKW["deserialize_i%d" % _b] = "C03.K.dec.i%d" % _b
+for _m, _w in sorted(_DKW.items()):
+    V("C03.V.dekind." + _m, "dekinds", "Deserializer::" + _m, {"C03": "D", "C04": "S", "C01": "S"}, fns=[DES + _m], witness=_w,
+      note=_m + ": shows ANY visitor exactly the value the wire format prescribes for the front of the stream, consumes exactly those bytes, otherwise the error kind of the first violated rule - generic over any flavour meeting the flavour contract, every stream of every length (callee contracts: try_take_varint_* from unit devarint, de_zig_zag_* from unit zigzag)")
 for k, tier in [("enum", "quick"), ("tuple", "quick"), ("i64", "quick"), ("option", "quick"), ("struct", "thorough")]:
     K("C03.K.prefix_eof." + k, C03M, "verif_c03::prefix_eof_" + k, {"C03": "D"}, needs=(REF, PROBES), tier=tier,
       fns=["postcard::take_from_bytes"], note="every strict prefix of every valid message of the probe type fails with DeserializeUnexpectedEnd")
@@ -459,7 +470,7 @@ ASSUMPTIONS = {
     "C01": [A_SERDE, A_PARAM, "nesting to arbitrary depth is not proved as one theorem: per-kind round trips + composite probes (depth <= 3) + A-serde"],
     "C02": [A_SERDE, A_PARAM, "Verus stub le0_* (x.to_le_bytes()[0] == x & 0xff) - discharged by Kani harnesses C02.K.stub.le0_*", "debug_assert_eq!(value, 0) dropped on Route V (D2); Kani checks it",
             "unit emit: Flavor and Serialize are re-declared traits carrying the flavour contract (out' == out ++ data on Ok) and the payload hypothesis (a value appends wire()); str length/bytes through stubs str_len / str_as_bytes over an uninterpreted str_bytes (D17, std: len() == as_bytes().len()); array-length literals for varint_max::<T>() (D18, == C12.V.varint_max); .map_err(|_| BufferFull) dropped (D12); methods of `&mut Serializer<F>` taken by value are extracted as inherent `&mut self` methods (D15) and compound-state results Ok(self) as Ok(()) (D16); serialize_i8 / f32 / f64 / char / collect_str are not in the unit (Kani only)"],
-    "C03": [A_SERDE, A_PARAM, "UTF-8 validity oracle for strings <= 3 bytes is written from Unicode Table 3-7; char oracle uses char::encode_utf8 (std)"],
+    "C03": [A_SERDE, A_PARAM, "unit dekinds: Flavor and Visitor are re-declared traits (flavour contract; an abstract visitor whose answer on_X(v) is any function of the value shown, and whose effect on the stream for option/newtype payloads is any function of the stream); UTF-8 validity is the uninterpreted utf8_ok with the stub from_utf8_or_bad = core::str::from_utf8(..).map_err(BadUtf8) (D19, std); Deserializer's fields made pub for the abstract contract (visibility only); deserialize_char / f32 / f64 / seq / tuple / map / struct / enum are not in the unit (Kani contracts)", "UTF-8 validity oracle for strings <= 3 bytes is written from Unicode Table 3-7; char oracle uses char::encode_utf8 (std)"],
     "C04": [A_SERDE, "A-cautious: serde's collection visitors cap pre-allocation by min(hint, 1 MiB / size_of::<T>()); the numeric allocation bound itself is not decided by any contract in reach", "MapAccess::size_hint returns Some(len) unconditionally (maps are outside the property's allocation clause; recorded, not alarmed)"],
     "C05": [A_SERDE, A_PARAM, "capacity running out at every byte position is covered per flavour contract (symbolic capacity), not as one API-level theorem"],
     "C06": ["A-cobs-src: the cobs source verified is the registry copy of cobs 0.2.3 pinned by Cargo.lock, with a cfg(kani) constructor/getter appended in the scratch copy only", "the link between the per-step contract (Kani, arbitrary state) and the whole-message theorem (Verus lemma) is the shared abstract machine M; Cobs<B> relies on B only through the Flavor + IndexMut contract proved for Slice/HVec", A_SERDE],
